@@ -10,6 +10,12 @@ import (
 )
 
 func BuildSchemaValidation(schema *openapi3.SchemaRef, validationString string, fieldInterface string) {
+	// A reference shares its Value with the referenced component (or has none yet) -
+	// validation declared at one usage site must never rewrite the component itself
+	if schema == nil || schema.Ref != "" || schema.Value == nil {
+		return
+	}
+
 	// Parse and apply validation rules from the Validator field
 	validationRules := strings.Split(validationString, ",")
 	for _, rule := range validationRules {
